@@ -78,7 +78,12 @@ NESTED = {"%y1": "%w1", "%y2": "%w2"}
 TS1 = 'memref<2xi32, "L1">'
 
 
+TIX = f'memref<{E}xindex, "L1">'
+
+
 def buf_type(b):
+    if b.startswith("%ix"):
+        return TIX  # an index table (offsets / gather indices): an element type without a fixed bit width
     if b in NESTED:
         return buf_type(NESTED[b])
     if b in VIEWS:
@@ -155,6 +160,9 @@ class BufGen:
                 return {"k": "copy", "src": s, "dst": d, "tag": self.tag}
             return {"k": "gen", "ins": [s], "out": d, "tag": self.tag}
         extra = (["%sel0"] if p.get("select") else []) + self.scope
+        if k == "copy" and p.get("index_tables") and r.random() < p["index_tables"]:
+            self.uses_ix = True
+            return {"k": "copy", "src": "%ix0", "dst": "%ix1", "tag": self.tag}
         if k == "copy":
             s, d = r.sample(self.bufs() + extra, 2)
             return {"k": "copy", "src": s, "dst": d, "tag": self.tag}
@@ -242,6 +250,8 @@ class BufGen:
             hb = self.stmts(self.r.randint(1, 4), 0, [], False)
             ast["helper"] = hb
             ast["body"].insert(self.r.randint(0, len(ast["body"])), {"k": "callh"})
+        if getattr(self, "uses_ix", False):
+            ast["index_tables"] = True
         if self.p.get("select"):
             ast["select"] = True  # %sel0 = one of two local buffers, decided at run time
         if self.p.get("n_allocs", N_ALLOCS) != N_ALLOCS:
@@ -440,6 +450,9 @@ def emit(ast) -> str:
     for i in range(ast.get("n_allocs", N_ALLOCS)):
         if f"%b{i}" not in late:
             e(2, f"%b{i} = memref.alloc() {{vsite = {i} : i64}} : {T1}")
+    if ast.get("index_tables"):
+        e(2, f"%ix0 = memref.alloc() {{vsite = 70 : i64}} : {TIX}")
+        e(2, f"%ix1 = memref.alloc() {{vsite = 71 : i64}} : {TIX}")
     if ast.get("select"):
         e(2, f"%sel0 = arith.select %p1, %b0, %b1 : {T1}")
     if ast.get("streams"):
@@ -470,6 +483,9 @@ def emit(ast) -> str:
             e(2, f"%c{c} = arith.constant {c} : index")
         for i in range(ast.get("n_allocs", N_ALLOCS)):
             e(2, f"%b{i} = memref.alloc() {{vsite = {40 + i} : i64}} : {T1}")
+        if ast.get("index_tables"):
+            e(2, f"%ix0 = memref.alloc() {{vsite = 72 : i64}} : {TIX}")
+            e(2, f"%ix1 = memref.alloc() {{vsite = 73 : i64}} : {TIX}")
         if ast.get("streams"):
             for nm, ty in (("%e0", "i32"), ("%e1", "i32"), ("%f0", "i8"), ("%f1", "i8")):
                 e(2, f'{nm} = memref.alloc() {{vsite = {60 + ord(nm[1]) + int(nm[2])} : i64}} : memref<8x{ty}, "L1">')
